@@ -144,6 +144,15 @@ def mergeLanelets (l1 l2 : Lanelet) : Res Lanelet :=
     else .error .assert
   | _, _ => .error .index
 
+/-- The merge loop of `all_lanelets_by_merging_successors_from_lanelet` / `…predecessors…` (:864-872, :905-913):
+    `pred = path[0]; for lanelet in path[1:]: pred = Lanelet.merge_lanelets(pred, lanelet)`. -/
+def mergeChain : Lanelet → List Lanelet → Res Lanelet
+  | m, [] => .ok m
+  | m, x :: xs =>
+    match mergeLanelets m x with
+    | .error e => .error e
+    | .ok m' => mergeChain m' xs
+
 /-- Segment lengths of a polyline for a length function on point pairs (used to state the
     "length of the merged lanelet is the sum of the parts" theorem for every such function). -/
 def segLens (len : Pt → Pt → Rat) : List Pt → List Rat
